@@ -1,5 +1,10 @@
-"""development unit: rle_16_decompress alone (the same Fn object is part of unit codec)"""
+"""unit codec16: rle_16_decompress alone, FUNCTIONAL proof against a transcription of MS-RDPBCGR 2.2.9.1.1.3.1.2.4 / 3.1.9 (interleaved RLE, 16 bpp):
+RLE16_SPECS = specification + proved lemmas, RLE16 = the real body with its 24 loop invariants (specs/rle16_fn.py).  Unit codec keeps the lighter
+SAFETY proof of the same body (specs/rle16_safe.py: C08); this unit carries the C09 part.  The commutativity lemmas for & and | are not broadcast here
+(tens of thousands of instantiations in these loops; no clause of this unit depends on operand order)."""
+import copy
 from vx.spec import *
-from specs.rle16_fn import RLE16, RLE16_SPECS
-UNIT = Unit("codec16", ["base.rs"], [RLE16_SPECS, RLE16])
-UNIT.dev = True
+from specs.rle16_fn import RLE16 as _RLE16, RLE16_SPECS
+RLE16 = copy.copy(_RLE16)
+RLE16.props = ["C09"]
+UNIT = Unit("codec16", ["base.rs"], [RLE16_SPECS, RLE16], broadcasts=("axiom_duplex",))
